@@ -187,8 +187,12 @@ class ReaderK1(object):
         H = ReaderHarness(self.P, R, havoc=False)
         final = {}
 
+        captured = []
+        self.last_records = []
+
         def snap(ev):
             if ev.kind == 'yield':
+                captured.append(ev.data['value'])
                 fr = I.frames[-1]
                 final['sig'] = tuple(sorted((k, repr(canon(v, oracle))) for k, v in fr.locals.items()
                                             if k not in ('self',)))
@@ -197,6 +201,7 @@ class ReaderK1(object):
 
         def thunk():
             st['k'] = 0
+            del captured[:]
             I.frames = [Frame(R.entry)]
             obj = H.make_reader(I)
             I.frames = []
@@ -206,6 +211,8 @@ class ReaderK1(object):
         sig = None
         for path in I.explore(thunk):
             npaths += 1
+            if len(captured) > len(self.last_records):
+                self.last_records = list(captured)
             if npaths > 64:
                 raise AnalysisError('K1 reader run forks too much for %r' % (seq,))
             if path.outcome == 'raise':
